@@ -756,6 +756,29 @@ func applyEdit(doc any, e Edit) (any, error) {
 	if strings.HasPrefix(e.Op, "graft:") {
 		return graft(doc, e)
 	}
+	if e.Op == "strip-regime" {
+		// no $regime, and parties of a tax country that has none: no regime applies
+		out := doc
+		var err error
+		if _, ok := jsontree.Get(out, "/$regime"); ok {
+			if out, err = jsontree.Delete(out, "/$regime"); err != nil {
+				return nil, err
+			}
+		}
+		if _, ok := jsontree.Get(out, "/$addons"); ok {
+			if out, err = jsontree.Delete(out, "/$addons"); err != nil {
+				return nil, err
+			}
+		}
+		for _, party := range []string{"supplier", "customer"} {
+			if _, ok := jsontree.Get(out, "/"+party); ok {
+				if out, err = jsontree.Set(out, "/"+party+"/tax_id", map[string]any{"country": e.New}); err != nil {
+					return nil, err
+				}
+			}
+		}
+		return out, nil
+	}
 	switch e.Op {
 	case "set":
 		if _, ok := jsontree.Get(doc, e.Ptr); !ok && e.Kind != kRegime && e.Kind != kCtryTax {
@@ -1283,6 +1306,51 @@ func enumSingle(yield func(Case) bool) {
 	}
 }
 
+// enumRegimeless: documents to which no regime applies (no $regime, parties of
+// a tax country without one) still only name known currencies and countries:
+// every currency and country position x undefined values, after the strip.
+func enumRegimeless(yield func(Case) bool) {
+	loadBases()
+	cfg := vh.Cfg()
+	idx := 0
+	perSchema := map[string]int{}
+	for _, path := range baseList {
+		b := bases[path]
+		if b.err != nil {
+			continue
+		}
+		sch := shortSchema(b.src)
+		perSchema[sch]++
+		if perSchema[sch] > 4 {
+			continue // four examples of every document kind
+		}
+		for _, m := range modes {
+			strip := Edit{Op: "strip-regime", Ptr: "/$regime", Kind: kRegime, New: "JP", Why: "country-without-regime"}
+			if !yield(Case{Doc: path, Mode: m, Edits: []Edit{strip}}) {
+				return
+			}
+			for _, p := range b.pos[m] {
+				if p.Op != "set" || (p.Ref.Kind != kCurr && p.Ref.Kind != kCtryISO) || strings.Contains(p.Ptr, "/tax_id/") {
+					continue
+				}
+				vals := []string{"XXZ", "ZZZ", "EUX", "eur"}
+				if p.Ref.Kind == kCtryISO {
+					vals = []string{"ZZ", "QQ", "es"}
+				}
+				for _, v := range vals {
+					idx++
+					if cfg.Shards > 1 && idx%cfg.Shards != cfg.Shard {
+						continue
+					}
+					if !yield(Case{Doc: path, Mode: m, Edits: []Edit{strip, {Op: "set", Ptr: p.Ptr, Kind: p.Ref.Kind, New: v, Why: "random"}}}) {
+						return
+					}
+				}
+			}
+		}
+	}
+}
+
 // ---------------------------------------------------------------------------
 // random double replacements
 
@@ -1394,7 +1462,7 @@ func init() {
 			"(addresses, identities, tax_id, combos, item origin); plus insert positions (a tag, an addon, a missing $regime, a country override on every combo, one more extension on every combo and ext map, an extension map on every object whose published schema allows one and that has none, and - for absent members whose published type allows one - a small instance of the member carrying the extension). "+
 			"`single` crosses every position with (a) other values the published files define for that kind (a seed-dependent sample in the quick tier, all of them in the thorough tier) and "+
 			"(b) undefined ones: one-character near misses of defined values, countries without a regime, keys of other regimes / addons, malformed and random well-formed keys / codes; "+
-			"`double` draws two replacements at random (half from those lists, half free strings). Two modes: `build` edits the example source and envelopes (calculates) it before validating; "+
+			"`regimeless` strips the regime from four examples of every document kind (no $regime, no addons, parties of a tax country without regime) and then replaces every currency and country with undefined codes; `double` draws two replacements at random (half from those lists, half free strings). Two modes: `build` edits the example source and envelopes (calculates) it before validating; "+
 			"`validate` edits the calculated example and validates it as it stands (digest recomputed). A rejection at any stage is fine; when Validate() returns nil the resolver "+
 			"(data/regimes, data/addons, data/catalogues, data/currency, the country enumerations of data/schemas/l10n; never the Go registries) must resolve every reference of the validated JSON. "+
 			"Non-trivial rule: the edited input itself contains a reference that the published files do not define, or define for another regime / category / addon / document type than the one that applies "+
@@ -1436,6 +1504,7 @@ func init() {
 		judge(c, o)
 	})
 	vh.Rapid("double", 12_000, 600_000, genDouble, judge)
+	vh.Enum("regimeless", enumRegimeless, judgeSafely)
 }
 
 // ---------------------------------------------------------------------------
